@@ -59,9 +59,12 @@ class Obligation:
     def note(self, what):
         self.sites.append(what)
 
-    def violate(self, rel, qual, construct, message, node=None, witness=None):
-        self.findings.append(Finding(self.oid, rel, qual, construct, message,
-                                     getattr(node, 'lineno', None), witness))
+    def violate(self, rel, qual, construct, message, node=None, witness=None, sure=False):
+        ''' :param sure: the finding names a construct that IS there (a store, a call, a handler ...); findings that say an
+            expected construct was NOT found are subject to the shape gate of Check.run '''
+        f = Finding(self.oid, rel, qual, construct, message, getattr(node, 'lineno', None), witness)
+        f.sure = sure
+        self.findings.append(f)
 
     @property
     def verdict(self):
@@ -77,8 +80,114 @@ class Obligation:
             raise AnalysisError('{}: {}'.format(self.oid, why))
 
 
+SHAPE_MIN_CHANGED = int(os.environ.get('VERIF_SHAPE_MIN', '10'))
+SHAPE_MIN_RATIO = float(os.environ.get('VERIF_SHAPE_RATIO', '0.25'))
+SHAPE_SMALL_CHANGED = int(os.environ.get('VERIF_SHAPE_SMALL_MIN', '100000'))
+SHAPE_SMALL_RATIO = float(os.environ.get('VERIF_SHAPE_SMALL_RATIO', '0.6'))
+_SHAPES = None
+
+
+def reference_shapes():
+    global _SHAPES
+    if _SHAPES is None:
+        try:
+            with open(os.path.join(os.path.dirname(os.path.abspath(__file__)), 'reference_shapes.json')) as infile:
+                _SHAPES = json.load(infile)
+        except OSError:
+            _SHAPES = {}
+    return _SHAPES
+
+
+def shape_distance(tree, rel, qual):
+    ''' how far the function <qual> of the analysed tree is from the function of that name in the reference tree:
+    (statements that differ, that number relative to the size of the reference function); None if no function is named '''
+    import collections
+    from .core import function_statements
+    ref = reference_shapes().get(rel)
+    if ref is None:
+        return None
+    names = [qual] + [q.strip() for q in qual.replace(' / ', ',').split(',') if q.strip() != qual]
+    best = None
+    for q in names:
+        cur = None
+        try:
+            if tree.has_func(rel, q):
+                cur = function_statements(tree.func(rel, q))
+        except Exception:
+            cur = None
+        old = ref.get(q)
+        if cur is None and old is None:
+            continue
+        a = collections.Counter(cur or [])
+        b = collections.Counter(old or [])
+        d = sum(((a - b) + (b - a)).values())
+        ratio = d / max(sum(b.values()), 1)
+        if best is None or d > best[0]:
+            best = (d, ratio, q)
+    return best
+
+
+TREE_MIN_CHANGED = int(os.environ.get('VERIF_TREE_SHAPE_MIN', '11'))
+
+
+def tree_distance(tree):
+    ''' statements of the analysed tree (all functions, canonical form) that differ from the reference tree '''
+    got = getattr(tree, '_tree_distance', None)
+    if got is not None:
+        return got
+    import collections
+    from .core import function_statements
+    ref = reference_shapes()
+    total = 0
+    worst = (0, None)
+    for rel, mod in tree.modules.items():
+        old = ref.get(rel, {})
+        cur = {}
+        for (r, q, f) in tree.all_functions([rel]):
+            cur[q] = function_statements(f)
+        for q in set(old) | set(cur):
+            a = collections.Counter(cur.get(q, []))
+            b = collections.Counter(old.get(q, []))
+            d = sum(((a - b) + (b - a)).values())
+            total += d
+            if d > worst[0]:
+                worst = (d, '{}:{}'.format(rel, q))
+    tree._tree_distance = (total, worst[1])
+    return tree._tree_distance
+
+
 class Check:
     ''' A property check = an ordered list of obligations. '''
+
+    def _shape_gate(self, ob):
+        ''' The rules were written on, and confirmed against, the functions of the reference tree (and small edits of them).
+        A finding of the kind "the expected construct is not there" in a function that has been restructured -- many of its
+        statements differ from the audited shape -- is not a verdict on the code, it says that the rule does not know this
+        shape: it is withheld and the obligation becomes INCONCLUSIVE, naming the function for review.  Findings that point
+        at a construct which IS there (violate(..., sure=True)) are never withheld. '''
+        if os.environ.get('VERIF_NO_SHAPE_GATE'):
+            return
+        keep = []
+        held = []
+        for f in ob.findings:
+            if getattr(f, 'sure', False):
+                keep.append(f)
+                continue
+            got = shape_distance(self.tree, f.rel, f.qual)
+            (total, where) = tree_distance(self.tree) if reference_shapes() else (0, None)
+            if got is not None and ((got[0] >= SHAPE_MIN_CHANGED and got[1] >= SHAPE_MIN_RATIO) or (got[0] >= SHAPE_SMALL_CHANGED and got[1] >= SHAPE_SMALL_RATIO)):
+                held.append((f, got))
+            elif total >= TREE_MIN_CHANGED:
+                # the tree as a whole is no small edit of the audited reference any more
+                held.append((f, (total, 1.0, 'the tree ({} changed most)'.format(where))))
+            else:
+                keep.append(f)
+        if held and not keep:
+            ob.findings = []
+            (f, got) = held[0]
+            raise AnalysisError('{}: {} has been restructured ({} statements differ from the audited reference); the rule is not armed for this shape. '
+                                'Withheld: {}'.format(ob.oid, got[2], got[0], f.message[:160]))
+        ob.findings = keep
 
     def __init__(self, prop, tree):
         self.prop = prop
@@ -90,7 +199,17 @@ class Check:
         ob.floor = floor
         self.obligations.append(ob)
         try:
-            fn(ob)
+            try:
+                fn(ob)
+            finally:
+                # also when the rule gave up half way: what it had reported until then goes through the gate
+                gate_err = None
+                try:
+                    self._shape_gate(ob)
+                except AnalysisError as gerr:
+                    gate_err = gerr
+            if gate_err is not None:
+                raise gate_err
             if len(ob.sites) < floor and not ob.findings:
                 raise AnalysisError('{}: matched {} instance(s), confirmed floor is {}'.format(oid, len(ob.sites), floor))
         except AnalysisError as err:
